@@ -140,6 +140,20 @@ class DGen(qf.QGen):
             return ["func", self.r.choice(["COALESCE", "F"]), [["sub", sub], ["t", self.value()]], self.r.choice([None, "fa"])]
         return super().sitem(cls, nsrc, depth)
 
+    def alias_of(self, t):
+        """the alias pool includes the names in use: an alias equal to the aliased column's own name"""
+        t = super().alias_of(t)
+        if t[0] == "field" and self.r.random() < 0.25:
+            t = list(t)
+            t[-1] = t[1]
+        return t
+
+    def tref(self, alias_p=None):
+        t = super().tref(alias_p)
+        if t[2] is None and self.r.random() < 0.08:
+            t = [t[0], t[1], t[0]]          # a table aliased by its own name
+        return t
+
     def alias_of_forced(self, t):
         t = list(t)
         t[-1] = self.r.choice(["al", "n", "total"])
@@ -268,6 +282,11 @@ def witness_pool():
                            "selects": [["t", ["star", None]]]})
         put("crit:%s" % o, _sel(o, "t", [["t", ["basic", "eq", _F("a"), _F("b"), "crit"]]]))
         put("crit-fnterm:%s" % o, _sel(o, "t", [["t", ["func", "F", [["basic", "eq", _F("a"), _F("b"), "crit"]], None]]]))
+        put("coincide:%s" % o, {"k": "sel", "cls": o, "from": [["t", _T("t", "t")]], "joins": [],
+                                "selects": [["t", ["field", "id", ["#0", [], None], "id"]], ["t", _F("a", "a")], ["t", ["vali", 1, "1"]]],
+                                "groupby": [["t", _F("a", "a")]], "orderby": [[["t", ["field", "id", ["#0", [], None], "id"]], None]]})
+        put("coincide-sub:%s" % o, {"k": "sel", "cls": o, "from": [["q", _sel(o, "u", [["t", _F("id", "id")]], alias="u")]], "joins": [],
+                                    "selects": [["t", ["field", "id", ["#0", [], None], "id"]]]})
         put("qual:%s" % o, {"k": "sel", "cls": o, "from": [["t", _T("t", "ta")]], "joins": [], "selects": [["t", f0]]})
         put("setop-alias:%s" % o, {"k": "sel", "cls": o, "from": [["q", {"k": "set", "base": _sel(o, "t", [["t", _F("a")]]),
                                                                            "ops": [["union", _sel(o, "u", [["t", _F("a")]])]], "alias": "su"}]],
@@ -453,6 +472,8 @@ def corpus():
     pool = witness_pool()
     out += [pool[k] for k in WITNESS_KEYS]
     out += [pool[k] for k in REGRESSION_KEYS if k not in WITNESS_KEYS]
+    # aliases that coincide with the name (and, for classes that do not quote, with the rendered text) of what they alias
+    out += [pool["%s:%s" % (t_, o)] for o in CLS_NAMES for t_ in ("coincide", "coincide-sub")]
     # GROUP BY alias use must follow the OUTER class (Oracle / MSSQL group by expressions) in every inherited position
     for o in ("OracleQuery", "MSSQLQuery"):
         for i in ("Query", "MySQLQuery", "PostgreSQLQuery"):
@@ -517,9 +538,10 @@ POSITION_FREE = ("cte-name", "criterion-alias", "alias-qualifier", "alias-refere
 class Sentinels:
     """rebuilds a spec with a fresh sentinel name at every naming position; meta[name] = (role, path kind, inner class)"""
 
-    def __init__(self):
+    def __init__(self, coincide=False):
         self.n = 0
         self.meta = {}
+        self.coincide = coincide      # aliases of plain columns / tables take the NAME of what they alias
 
     def new(self, prefix, path, cls, fn, gov=None, own=None):
         """[cls]: the class whose defaults govern this position (see [decisive]); for a sub-query alias the class of
@@ -556,8 +578,9 @@ class Sentinels:
         name, schema, alias = t
         if name.startswith("#"):
             return t
-        return [self.new("zt", st["path"], st["dec"], st["fn"]), [self.new("zh", st["path"], st["dec"], st["fn"]) for _ in (schema or [])],
-                None if alias is None else self.new("za", st["path"], st["dec"], st["fn"])]
+        tn = self.new("zt", st["path"], st["dec"], st["fn"])
+        return [tn, [self.new("zh", st["path"], st["dec"], st["fn"]) for _ in (schema or [])],
+                None if alias is None else (tn if self.coincide else self.new("za", st["path"], st["dec"], st["fn"]))]
 
     def alias(self, a, st, prefix="za"):
         if a is None:
@@ -571,7 +594,11 @@ class Sentinels:
         k = t[0]
         fnst = dict(st, fn=("term" if st["fn"] is None else st["fn"]))
         if k == "field":
-            return ["field", self.new("zc", st["path"], st["dec"], st["fn"]), self.tref(t[2], st), self.alias(t[3], st)]
+            cn = self.new("zc", st["path"], st["dec"], st["fn"])
+            if self.coincide and t[3] is not None:
+                st["amap"][("za", t[3])] = cn
+                return ["field", cn, self.tref(t[2], st), cn]
+            return ["field", cn, self.tref(t[2], st), self.alias(t[3], st)]
         if k == "star":
             return ["star", self.tref(t[1], st)]
         if k == "vals":
@@ -747,8 +774,8 @@ class Sentinels:
         return self.item(g, st)
 
 
-def sentinelize(spec):
-    sn = Sentinels()
+def sentinelize(spec, coincide=False):
+    sn = Sentinels(coincide)
     return sn.query(spec, []), sn.meta
 
 
@@ -1447,6 +1474,8 @@ def run_impl(case):
             for c in CLS_NAMES:
                 per[c] = render(relabel_spec(sspec, c))
             out["per_class"] = per
+            cspec, _ = sentinelize(spec, coincide=True)
+            out["per_class_coincident"] = {c: render(relabel_spec(cspec, c)) for c in CLS_NAMES}
     except Exception as e:  # noqa
         out["sent_error"] = "%s: %s" % (type(e).__name__, e)
     return out
@@ -1506,6 +1535,18 @@ def oracle(case, outcome):
                 out.append({"signature": ["C07", c, "Query", "tokens", "sequence"],
                             "what": "devendored token sequences differ at position %d: %s writes %r, Query writes %r; %s  ||  %s" % (
                                 d[0], c, d[1], d[2], txt[:300], ref[:300])})
+    # ... and once more with every column / table alias equal to the name of what it aliases (an alias must be emitted whether or
+    # not it coincides with the rendered text of its expression)
+    pco = outcome.get("per_class_coincident") or {}
+    refc = pco.get("Query")
+    for c, txt in pco.items():
+        if c == "Query" or txt.startswith("!") or refc is None or refc.startswith("!"):
+            continue
+        d = first_diff(devendor(txt, kind), devendor(refc, kind))
+        if d is not None:
+            out.append({"signature": ["C07", c, "Query", "tokens", "sequence-coincident-alias"],
+                        "what": "with aliases equal to the aliased names the devendored token sequences differ at position %d: %s writes %r, "
+                                "Query writes %r; %s  ||  %s" % (d[0], c, d[1], d[2], txt[:300], refc[:300])})
     # the labelled (mixed-class) rendering against the uniform rendering by its outer class
     if kw is None and outer in per and not per[outer].startswith("!"):
         d = first_diff(devendor(outcome["sent_text"], kind), devendor(per[outer], kind))
